@@ -43,8 +43,43 @@ def chain {V} (f : Fam V) (v : V) : List String :=
 
 def names : List String := ["value0", "json1", "value1", "json2", "value2", "json3"]
 
+/-! JSON texts are compared MODULO THE ORDER OF OBJECT MEMBERS: no property fixes the order in which members are
+written (C16 asks for the same text on RE-serialisation, which the harness' `C16:idempotent` oracle checks on the
+implementation's own three texts), so a pure reordering of struct fields is not a disagreement. -/
+
+def ltBytes : Bytes → Bytes → Bool
+  | [], [] => false
+  | [], _ :: _ => true
+  | _ :: _, [] => false
+  | a :: as, b :: bs => if a < b then true else if b < a then false else ltBytes as bs
+
+def insertMember (m : Bytes × J) : Members → Members
+  | [] => [m]
+  | x :: xs => if ltBytes m.1 x.1 then m :: x :: xs else x :: insertMember m xs
+
+mutual
+def sortJ : J → J
+  | .obj ms => .obj (sortMembers ms)
+  | .arr xs => .arr (sortElems xs)
+  | j => j
+def sortMembers : Members → Members
+  | [] => []
+  | (k, v) :: r => insertMember (k, sortJ v) (sortMembers r)
+def sortElems : List J → List J
+  | [] => []
+  | x :: r => sortJ x :: sortElems r
+end
+
+/-- canonical form of a `h<hex>` JSON text token: parsed, members sorted, printed; unparsable text stays as it is -/
+def canonJsonTok (tokn : String) : String :=
+  match (Proto.bytes [tokn]) with
+  | some (b, _) => (match parseDocument b with | some j => hex (print (sortJ j)) | none => tokn)
+  | none => tokn
+
 def firstDiff : List String → List String → List String → Option String
-  | n :: ns, m :: ms, i :: is => if m == i then firstDiff ns ms is else some (diff n m i)
+  | n :: ns, m :: ms, i :: is =>
+    let same := if n.startsWith "json" then canonJsonTok m == canonJsonTok i else m == i
+    if same then firstDiff ns ms is else some (diff n m i)
   | _, [], [] => none
   | _, _, _ => some (diff "shape" "?" "?")
 
